@@ -1085,6 +1085,66 @@ func runCase(c *fw.Ctx, i int) {
 			report("ExportToFiles", failf("batch-file", "a file beyond the last batch (%d) exists", len(mem)))
 		}
 	})
+	c.Guard("one config, several exporters", id, detail, func() {
+		// one configuration value handed to exporters of every format in turn (and to a
+		// batch exporter and a collection): each export is the one a fresh equal
+		// configuration gives, and the caller's include list is left as it was
+		rs := c.Rand("coll", i, "shared-config")
+		shared := cfg
+		if shared.MetadataFields == nil && rs.Intn(2) == 0 {
+			for _, p := range rs.Perm(len(metaKeys))[:1+rs.Intn(len(metaKeys))] {
+				shared.MetadataFields = append(shared.MetadataFields, metaKeys[p])
+			}
+		}
+		pristine := append([]string(nil), shared.MetadataFields...)
+		for k, p := range append(rs.Perm(4), rs.Perm(4)...) {
+			use := shared
+			use.Format = rag.ExportFormat(p)
+			switch use.Format {
+			case rag.ExportFormatCSV:
+				if use.CSVDelimiter == 0 || use.CSVDelimiter == '\t' {
+					use.CSVDelimiter = ','
+				}
+			case rag.ExportFormatTSV:
+				use.CSVDelimiter = '\t'
+			}
+			want := use
+			if shared.MetadataFields != nil {
+				want.MetadataFields = append([]string{}, pristine...)
+			}
+			via := rs.Intn(3)
+			ex := func(kc rag.ExportConfig) (string, error) {
+				kc.MetadataFields = use.MetadataFields // the caller's own slice
+				switch via {
+				case 1:
+					var sb strings.Builder
+					err := rag.NewBatchExporterWithConfig(len(chunks)+1, kc).Export(chunks, func(b rag.ExportBatch) error { sb.WriteString(b.Data); return nil })
+					if len(chunks) > 0 {
+						return sb.String(), err
+					}
+				case 2:
+					path := filepath.Join(c.Work, fmt.Sprintf("c14shared-%d.out", i))
+					defer os.Remove(path)
+					if err := cc.ExportToFile(path, kc); err != nil {
+						return "", err
+					}
+					data, err := os.ReadFile(path)
+					return string(data), err
+				}
+				return rag.NewExporterWithConfig(kc).ExportToString(chunks)
+			}
+			c.Count("shared_config_exports", 1)
+			if f := checkExport(ex, chunks, want, c); f != nil {
+				f.what = fmt.Sprintf("export %d with one configuration value (format %v): %s", k, use.Format, f.what)
+				report("shared config", f)
+				return
+			}
+			if strings.Join(shared.MetadataFields, "\x00") != strings.Join(pristine, "\x00") {
+				// observed, not judged: what the property speaks about is the next export
+				c.Count("caller_include_list_rewritten", 1)
+			}
+		}
+	})
 	c.Guard("BatchExporter", id, detail, func() {
 		report("BatchExporter", checkBatches(c.Rand("coll", i, "batch"), chunks, cfg, c))
 	})
